@@ -273,3 +273,29 @@ Proof. intros OK s w w' Len LL Hw Hw' Hd. unfold switch_ok in OK. apply andb_tru
     apply in_map_iff. exists (Zp a u). split; [|apply in_table; [lia|assumption]].
     rewrite <- S0, Es. now rewrite N.lxor_assoc, N.lxor_nilpotent, N.lxor_0_r. Qed.
 End Distance.
+
+(* ---------------------------------------------------------------- the statements in terms of `code` *)
+Definition sym_word (w : list N) : Prop := Forall (fun v => v < 32) w.
+
+Lemma two_errors (c : code) L : table_ok (c_gen c) (shift_of c) L = true ->
+  forall w w', sym_word w -> sym_word w' -> length w = length w' -> (length w <= L)%nat -> (1 <= hamming w w' <= 2)%nat ->
+  valid_codeword c w = true -> valid_codeword c w' = false.
+Proof. intros OK w w' Hw Hw' Len LL Hd V. unfold valid_codeword, residue in *. apply N.eqb_eq in V. apply N.eqb_neq.
+  rewrite <- V. exact (distance3 (c_gen c) (shift_of c) L OK 1 w w' Len LL Hw Hw' Hd). Qed.
+
+Lemma switch_errors (c0 cm : code) L : c_gen c0 = c_gen cm -> c_len c0 = c_len cm ->
+  switch_ok (c_gen c0) (shift_of c0) L (N.lxor (c_target c0) (c_target cm)) = true ->
+  forall w w', sym_word w -> sym_word w' -> length w = length w' -> (length w <= L)%nat -> (hamming w w' <= 2)%nat ->
+  (valid_codeword c0 w = true -> valid_codeword cm w' = false) /\ (valid_codeword cm w = true -> valid_codeword c0 w' = false).
+Proof. intros EG EL OK w w' Hw Hw' Len LL Hd.
+  assert (ES : shift_of c0 = shift_of cm) by (unfold shift_of; now rewrite EL).
+  pose proof (distance3_switch (c_gen c0) (shift_of c0) L _ OK 1 w w' Len LL Hw Hw' Hd) as NE.
+  unfold valid_codeword, residue, feed, cstep. rewrite <- EG, <- ES. fold (feedg (c_gen c0) (shift_of c0) 1 w). fold (feedg (c_gen c0) (shift_of c0) 1 w').
+  split; intros V; apply N.eqb_eq in V; apply N.eqb_neq; intros E; apply NE; rewrite E, V.
+  - now rewrite <- N.lxor_assoc, N.lxor_nilpotent, N.lxor_0_l.
+  - now rewrite (N.lxor_comm (c_target c0)), <- N.lxor_assoc, N.lxor_nilpotent, N.lxor_0_l. Qed.
+
+Lemma hamming_app p : forall w w', hamming (p ++ w) (p ++ w') = hamming w w'.
+Proof. induction p as [|x p IH]; intros w w'; [reflexivity|]. cbn [app hamming]. now rewrite N.eqb_refl, IH. Qed.
+Lemma hamming_refl w : hamming w w = 0%nat.
+Proof. induction w as [|x w IH]; [reflexivity|]. cbn [hamming]. now rewrite N.eqb_refl, IH. Qed.
